@@ -428,12 +428,13 @@ static void op_boot(const Op &o, KeyCtx *kc, RunResult &r, int opi, double nb_br
     int var = (int) o.geti("var");   // 0 FFT+KS, 1 FFT woKS, 2 coef+KS, 3 coef woKS
     static const char *names[] = {"tfhe_bootstrap_FFT", "tfhe_bootstrap_woKS_FFT", "tfhe_bootstrap", "tfhe_bootstrap_woKS"};
     const char *what = names[var];
-    int32_t mu = (int32_t) o.geti("mu");
+    const int32_t mu_a = (int32_t) o.geti("mu"), mu_b = (int32_t) (rr.next() | 1);
     const LweParams *inp = kc->params->in_out_params;
     LweSample *x = new_LweSample(inp);
     LweSample *res = new_LweSample((var & 1) ? &kc->params->tgsw_params->tlwe_params->extracted_lweparams : inp);
     int reps = (var >= 2) ? 2 : 6;     // coefficient-domain variants are slow
     for (int rep = 0; rep < reps && !r.v.set; rep++) {
+        const int32_t mu = (rep & 1) ? mu_b : mu_a;   // output messages alternate A, B, A, B on this thread (history: a stale per-thread test vector shows)
         int xs = (int) o.geti("xs");
         if (xs == 0) {   // trivial sample sweeping a rounded phase and its rounding edges
             int pq = rr.bern(0.5) ? (int) rr.below((uint64_t) 2 * N) : (int) (rr.below(4) == 0 ? 0 : rr.below(3) == 0 ? N - 1 : rr.below(2) ? N : 2 * N - 1);
